@@ -325,7 +325,7 @@ func VerifC11CloseAtOnce(callFirst int) {
 // virtual time, so the receive loop finds the transaction's buffer full and has to wait for the
 // caller. The call returns the acceptable datagram — the first one in arrival order — as soon as
 // the matcher has got to it.
-func VerifC10SlowMatcher(n int) {
+func VerifC10SlowMatcher(n, late int) {
 	k := &verifCall{conn: newVerifConn(), tries: 2, ctxAt: -1, closeAt: -1}
 	k.T = int64(verifU32("T"))
 	verifAssume(k.T >= 1)
@@ -340,11 +340,17 @@ func VerifC10SlowMatcher(n int) {
 	verifAssume(a <= 1<<36)
 	verifAssume(s > 0)
 	verifAssume(s < 3*k.T)
-	verifAssume(a+s < 3*k.T) // the matcher is done before the call's schedule ends
+	if late == 0 {
+		verifAssume(a+s < 3*k.T) // the matcher is done before the call's schedule ends
+	} else {
+		// the matcher is still busy when the last deadline passes, with datagrams waiting
+		verifAssume(a < 3*k.T)
+		verifAssume(a+s > 3*k.T)
+	}
 	var burst [][]byte
 	for i := 0; i < n; i++ {
 		mt := byte(5) // DHCPACK: rejected by the OFFER matcher
-		if i == n-1 {
+		if i == n-1 && late == 0 {
 			mt = 2
 		}
 		p := &dhcpv4.DHCPv4{OpCode: dhcpv4.OpcodeBootReply, HWType: 1, TransactionID: verifXID, ClientHWAddr: verifHW, Options: dhcpv4.Options{53: []byte{mt}, 12: []byte{byte(i)}}}
@@ -372,6 +378,18 @@ func VerifC10SlowMatcher(n int) {
 	k.start = verifNow()
 	k.resp, k.err = c.SendAndRead(newVerifCtx(), k.dest, k.req, matcher)
 	k.end = verifNow()
+	if late != 0 {
+		// nothing acceptable arrived: the call ends, without a response, as soon as its matcher
+		// gives control back after the last deadline (which of the ready events the call looks at
+		// first is the runtime's choice: every choice is explored)
+		verifAssert(k.resp == nil && k.err == ErrNoResponse, "no-response-error")
+		verifAssert(k.end == a+s, "returns-at-once-when-the-schedule-has-ended")
+		c.Close()
+		verifSettle()
+		verifAssert(verifGoroutines() == 0, "no-goroutine-left-after-close")
+		verifReach("end")
+		return
+	}
 	verifAssert(k.err == nil && k.resp != nil, "first-acceptable-datagram-in-arrival-order-ends-the-call")
 	if k.resp != nil {
 		verifAssert(k.resp.MessageType() == dhcpv4.MessageTypeOffer, "response-satisfies-matcher")
